@@ -252,7 +252,7 @@ func runVdrProperty(c *Ctx, prop string) {
 		specs = append(specs, sp)
 	}
 	// a sub-pipeline directory is relocated to another volume while mrp is down
-	nReloc := 6
+	nReloc := 8
 	if c.Thorough {
 		nReloc = 60
 	}
@@ -267,6 +267,7 @@ func runVdrProperty(c *Ctx, prop string) {
 		}
 		sp := mk(fmt.Sprint("reloc", i), src, mode, c.Seed*104729+int64(i))
 		sp.RelocateSub = true
+		sp.RelocLevel = []string{"", "fork", "job", "files"}[(i+int(c.Seed))%4]
 		sp.CrashAt = []int{6 + c.Rng.Intn(20)}
 		sp.CrashSurvive = 0.3
 		specs = append(specs, sp)
